@@ -236,7 +236,7 @@ func r05b(c *an.Ctx) {
 // on the same offer / descriptor / wants / remaining resources.
 func r05c(c *an.Ctx) {
 	c.Rule("R05c", "every call of makeTaskForMesosResources is dominated by Attributes.Satisfy==true and Resources.Satisfy==true on the same offer, descriptor, wants and remaining resources", 2)
-	sites := c.SitesNamed("core/task.makeTaskForMesosResources")
+	sites := c.SitesOfFn(c.Fn("core/task", "makeTaskForMesosResources"))
 	ord := 0
 	for _, s := range sites {
 		c.Subject()
@@ -512,7 +512,7 @@ func r05f(c *an.Ctx) {
 			continue
 		}
 		nDel++
-		if c.RelName(s.Fn) != "core/task.makeTaskForMesosResources" {
+		if s.Fn != c.Fn("core/task", "makeTaskForMesosResources") {
 			delOK = false
 			c.Ob("delete-from-decline-set|"+c.RelName(an.OutermostParent(s.Fn)), s.Call.Pos(), false, "an offer is removed from the decline set outside the task builder: an offer no task was built for may be left neither used nor declined")
 		}
